@@ -52,6 +52,7 @@ Next == depth < MaxDepth /\
         \/ Req(c, "none", NoA, a, "zero", XidAux, p)                             \* renewing, source 0.0.0.0
         \/ Req(c, "none", NoA, a, "bcast", XidAux, p)                            \* rebinding
         \/ Req(c, "none", a, NoA, "zero", XidAux, p)                             \* rebooting
+        \/ \E ci \in OwnAddrs(c[1]) : Req(c, "none", a, ci, "zero", XidAux, p)    \* rebooting with a non-zero ciaddr (option 50 decides)
   \/ \E c \in Clients, sid \in {"us", "other"} : \E r \in OwnAddrs(c[1]) \cup PeerAddrs(c[1]) \cup {NoA} :
         /\ Decline(c[1], c[2], r, sid)
         /\ Step([a |-> "decline", k |-> c[1], m |-> c[2], ropt |-> r, ropts |-> Sym(r), sid |-> sid]) /\ Keep
